@@ -1,4 +1,6 @@
 import UncModel.IgnoredScan
+import UncModel.RegionNl
+import UncModel.Gen.NlDel
 import UncModel.Lemmas.RenderLemmas
 /-!
 # C07 — disabled regions are copied through untouched
@@ -65,5 +67,104 @@ theorem C07_ignored_raw (s : RSt) (txt : List CP) :
     rw [h.1]; simp [OutSt.out]
 
 example : (rRaw { o := { col := 7, spaces := 3 } } [9, 120, 32]).o.out = [9, 120, 32] := by decide
+
+/-! ## newline removal between the tokenizer and the output never takes a line of a region away -/
+
+open RegionNl in
+/-- the guard as regenerated from src/chunk.h refuses a newline chunk whose previous or next chunk is CT_IGNORED -/
+theorem C07_safe_delete_refuses_ignored :
+    (Gen.safeNlFalseWhen.contains ("prev", "CT_IGNORED") && Gen.safeNlFalseWhen.contains ("next", "CT_IGNORED")) = true := by
+  decide +kernel
+
+/-- the model of the guard agrees with the regenerated list of refusing tests (CT_COMMENT_CPP before; CT_IGNORED on either side) -/
+theorem C07_safe_delete_model_matches_table :
+    Gen.safeNlFalseWhen = [("prev", "CT_COMMENT_CPP"), ("prev", "CT_IGNORED"), ("next", "CT_IGNORED")] ∧
+    Gen.safeNlFinal = "tmp->IsSamePreproc(GetNext())" := by
+  constructor <;> decide +kernel
+
+def nlDelSiteOk (s : String × String × String × String) : Bool :=
+  s.2.2.2 == "guard" || s.2.2.2 == "early-exit" ||
+  Gen.nlDelExceptions.any fun e => e.1 == s.1 && e.2.1 == s.2.1 && e.2.2.1 == s.2.2.1
+
+/-- every `Chunk::Delete(v)` of src/newlines/*.cpp stands under `v->SafeToDeleteNl()` (enclosing condition or early exit) or is one of
+    the committed, individually justified exceptions -/
+theorem C07_nl_delete_sites_guarded : Gen.nlDelSites.all nlDelSiteOk = true := by decide +kernel
+
+example : Gen.nlDelSites.length ≥ 10 := by decide +kernel
+
+
+open RegionNl in
+/-- **the lines of a region survive `newline_del_between()`**: whatever stretch of the chunk list the loop walks over, whatever
+    `IsSamePreproc` answers, every CT_IGNORED chunk and every newline chunk that touches one is still there afterwards, in order;
+    only the COUNT of such a newline chunk may change (see the witness below) -/
+theorem C07_del_between_keeps_region_lines (samePP : Nat → Bool) (l : List K) (i : Nat) (prev0 prevC : Option K)
+    (h : prev0 = some K.ign → prevC = some K.ign) :
+    (keepProtected (delWalk samePP i prevC (markFrom prev0 l))).map shape = (keepProtected (markFrom prev0 l)).map shape := by
+  induction l generalizing i prev0 prevC with
+  | nil => simp [markFrom, delWalk, keepProtected]
+  | cons c rest ih =>
+    have hnext : ((markFrom (some c) rest).head?).map Prod.fst = rest.head? := head_markFrom _ _
+    cases c with
+    | nl n =>
+      simp only [markFrom, delWalk, hnext]
+      split
+      · split
+        · -- deleted: it was not protected
+          rename_i hs
+          have hp : protectedAt prev0 (K.nl n) rest.head? = false := by
+            simp only [safeToDelete] at hs
+            split at hs
+            · cases hs
+            · split at hs
+              · cases hs
+              · rename_i h1 h2
+                simp only [protectedAt, K.isNl, Bool.true_and, Bool.or_eq_false_iff, decide_eq_false_iff_not]
+                refine ⟨by simp, ?_, ?_⟩
+                · intro hp0; exact h2 (Or.inl (h hp0))
+                · intro hn; exact h2 (Or.inr hn)
+          have := ih (i + 1) (some (K.nl n)) prevC (by intro hh; cases hh)
+          simp only [keepProtected, List.filter_cons, hp] at this ⊢
+          simpa using this
+        · have := ih (i + 1) (some (K.nl n)) (some (K.nl n)) (by intro hh; cases hh)
+          simp only [keepProtected, List.filter_cons] at this ⊢
+          split <;> simp_all
+      · have := ih (i + 1) (some (K.nl n)) (some (if n > 1 then K.nl 1 else K.nl n)) (by intro hh; cases hh)
+        simp only [keepProtected, List.filter_cons] at this ⊢
+        split <;> split <;> simp_all [shape]
+    | ign =>
+      have := ih (i + 1) (some K.ign) (some K.ign) (by intro _; rfl)
+      simp only [markFrom, delWalk, keepProtected, List.filter_cons] at this ⊢
+      split <;> simp_all
+    | cmtCpp =>
+      have := ih (i + 1) (some K.cmtCpp) (some K.cmtCpp) (by intro hh; cases hh)
+      simp only [markFrom, delWalk, keepProtected, List.filter_cons] at this ⊢
+      split <;> simp_all
+    | cmt =>
+      have := ih (i + 1) (some K.cmt) (some K.cmt) (by intro hh; cases hh)
+      simp only [markFrom, delWalk, keepProtected, List.filter_cons] at this ⊢
+      split <;> simp_all
+    | tok =>
+      have := ih (i + 1) (some K.tok) (some K.tok) (by intro hh; cases hh)
+      simp only [markFrom, delWalk, keepProtected, List.filter_cons] at this ⊢
+      split <;> simp_all
+
+open RegionNl in
+/-- a whole region `line nl line nl(2) line nl` between two tokens, walked with every other condition saying "delete": nothing of it
+    goes; the newline after the token in front (it touches no region line) does -/
+example : (delWalk (fun _ => true) 0 none (markFrom none [K.tok, K.nl 1, K.tok, K.nl 1, K.ign, K.nl 1, K.ign, K.nl 2, K.ign, K.nl 1, K.tok])).map Prod.fst
+    = [K.tok, K.tok, K.nl 1, K.ign, K.nl 1, K.ign, K.nl 2, K.ign, K.nl 1, K.tok] := by decide
+
+open RegionNl in
+/-- the count is not protected: a blank line at the end of a region, directly in front of a comment such as the enable marker, is
+    reduced to a plain line break by the comment branch of `newline_del_between()` (the listed known finding
+    region-blank-lines-removed) -/
+theorem C07_region_blank_before_comment_witness :
+    (delWalk (fun _ => true) 0 none (markFrom none [K.ign, K.nl 2, K.cmt])).map Prod.fst = [K.ign, K.nl 1, K.cmt] := by decide
+
+open RegionNl in
+/-- before fix 9ccb421 the guard did not look for CT_IGNORED: the same walk removed the line breaks between the lines of a region -/
+theorem C07_old_guard_joins_region_lines_witness :
+    let oldSafe : Option K → Option K → Bool → Bool := fun prev _ samePP => if prev = some K.cmtCpp then false else samePP
+    oldSafe (some K.ign) (some K.ign) true = true ∧ safeToDelete (some K.ign) (some K.ign) true = false := by decide
 
 end Unc
